@@ -28,20 +28,20 @@ CLAIMED = {
              "model-vs-implementation correspondence run"),
 
     "C03": dict(
-        text="Lean 4 theorem nodes_enumerates_leaves: for every well-formed type, every state depth D >= max_depth and every target that does not run out of capacity, polling a fresh NodeIter n times returns exactly the first n leaves in depth-first declaration order (each once, nothing in between, each with the target transcoded along that very leaf and its depth) and None from then on, for every n; plus: yielded target = transcoding of the leaf's own key; (), index arrays accept; leaves = orbit of the odometer successor; leaf count = Metadata.count. Proof: successor-with-carry orbit (Lemmas/Enum), traversal of the state array as a pure recursion (IdxWalk), induction over the carry chain (IterEnum). Every run compares the complete item sequence of nodes::<N,D>() for 7 target representations on every corpus type with the model and a brute-force enumeration, and evaluates the theorem's hypotheses (WF, Small) on every corpus type.",
+        text="Lean 4 theorem nodes_enumerates_leaves: for every well-formed type, every state depth D >= max_depth and every target that does not run out of capacity, polling a fresh NodeIter n times returns exactly the first n leaves in depth-first declaration order (each once, nothing in between, each with the target transcoded along that very leaf and its depth) and None from then on, for every n; plus: yielded target = transcoding of the leaf's own key; (), index arrays accept; leaves = orbit of the odometer successor, listed in strictly increasing lexicographic order without duplicates (leaves_sorted); an index path is enumerated iff it resolves to a leaf (leaf_iff_enumerated); leaf count = Metadata.count. Proof: successor-with-carry orbit (Lemmas/Enum), traversal of the state array as a pure recursion (IdxWalk), induction over the carry chain (IterEnum). Every run compares the complete item sequence of nodes::<N,D>() for 7 target representations on every corpus type with the model and a brute-force enumeration, and evaluates the theorem's hypotheses (WF, Small) on every corpus type.",
         note='Model of NodeIter/traverse_by_key is hand-written and tied by the correspondence run. Trusted: Lean kernel, typegen.py/spec.py, rt.rs.',
         tech='Lean 4 proof (successor orbit + carry-chain induction over a hand-written model) + model-vs-implementation correspondence and schema-enumeration oracle'),
     "C04": dict(
-        text="Lean 4 theorems: chaining = concatenation (bisimulation of key sources); traverse_factor: every traversal with any key source factors through a valid node path with exactly one callback per consumed key carrying that level's index, name and sibling count (callback_once_per_key: Ok depth = number of callbacks); any_key_any_target: what a target with enough capacity holds is a function of that path only, equal to what the position tuple produces, so all keys of one node are interchangeable; index_form_is_position (+ fixpoint); packed_form_resolves (the packed form decodes back to the node). Every run transcodes every node of every corpus type between 9 source and 10 target representations, checks the recording callback and Chain at every split point.",
-        note="The text forms (Path, JsonPath: render, split, look names up again) are covered by C15's splitter theorems and the runs; their end-to-end round trip is not a theorem. bv_decide axioms via the packed-word lemmas.",
+        text="Lean 4 theorems: chaining = concatenation (bisimulation of key sources); traverse_factor: every traversal with any key source factors through a valid node path with exactly one callback per consumed key carrying that level's index, name and sibling count (callback_once_per_key: Ok depth = number of callbacks); any_key_any_target: what a target with enough capacity holds is a function of that path only, equal to what the position tuple produces, so all keys of one node are interchangeable; index_form_is_position (+ fixpoint); packed_form_resolves (the packed form decodes back to the node); path_text_roundtrip and jsonpath_text_roundtrip (render along the node path, split with the iterators of C15, look names / decimal indices up again = the same walk as the position tuple). Every run transcodes every node of every corpus type between 9 source and 10 target representations, checks the recording callback and Chain at every split point.",
+        note="Separator / delimiter characters must not occur in the key texts on the path (the code debug_asserts this). bv_decide axioms via the packed-word lemmas.",
         tech='Lean 4 proof (factorisation by schema induction, bisimulation) + exhaustive-over-corpus correspondence and oracle'),
     "C06": dict(
-        text="Lean 4 theorems for every schema: count = number of leaves; max_depth, max_bits and max_length are each attained by some leaf and exceeded by none (generic per-level weights, digits monotone); buffers_suffice: an index array of max_depth slots holds every node's key (= its position tuple) and, when max_bits <= 63, a packed word holds every node's key using at most max_bits bits. Every run compares Metadata and a recording Walk with brute force on every corpus type (array lengths straddling powers of 2 and 10) and transcodes every node into buffers sized from the metadata.",
-        note='Path-buffer sufficiency (max_length + separators) is checked by the run only. bv_decide axioms via the packed-word lemmas. Assumes count < 2^64.',
+        text="Lean 4 theorems for every schema: count = number of leaves; max_depth, max_bits and max_length are each attained by some leaf and exceeded by none (generic per-level weights, digits monotone); buffers_suffice: an index array of max_depth slots holds every node's key (= its position tuple) and, when max_bits <= 63, a packed word holds every node's key using at most max_bits bits; path_buffer_suffices: a Path buffer of max_length + max_depth separators holds the Path of every node. Every run compares Metadata and a recording Walk with brute force on every corpus type (array lengths straddling powers of 2 and 10) and transcodes every node into buffers sized from the metadata.",
+        note='A user-supplied Walk seeing every node with its declared children is checked by the run only (Metadata is the modelled walker). bv_decide axioms via the packed-word lemmas. Assumes count < 2^64.',
         tech='Lean 4 proof by structural induction + correspondence/oracle run'),
     "C09": dict(
-        text="Lean 4 theorems on the definitions regenerated from packed.rs: encode (for every node whose bit weight fits, Transcode-for-Packed succeeds without panic, = pushAll of the path's fields, uses exactly the path's bit weight), decode (the packed key used as a key walks to exactly that node: kind, depth, indices), unique (distinct nodes, distinct keys), bounded (weight <= max_bits, attained), append_stable (appending children without changing a level's width leaves existing keys unchanged), level_roundtrip. Every run checks value, decode, uniqueness, order and width of the packed key of every node of every corpus type.",
-        note='Numeric order = iteration order is checked by the run only. bv_decide axioms as in C08. max_bits <= 63.',
+        text="Lean 4 theorems on the definitions regenerated from packed.rs: encode (for every node whose bit weight fits, Transcode-for-Packed succeeds without panic, = pushAll of the path's fields, uses exactly the path's bit weight), decode (the packed key used as a key walks to exactly that node: kind, depth, indices), unique (distinct nodes, distinct keys), bounded (weight <= max_bits, attained), order (the packed keys of the leaves in iteration order are strictly increasing), append_stable (appending children without changing a level's width leaves existing keys unchanged), level_roundtrip. Every run checks value, decode, uniqueness, order and width of the packed key of every node of every corpus type.",
+        note='bv_decide axioms as in C08. max_bits <= 63.',
         tech='Lean 4 proof (bv_decide word lemmas + list/path induction) + correspondence/oracle run'),
     "C11": dict(
         text="Lean 4 theorems for every well-formed type: limited_exact (for EVERY depth limit D and every target whose callbacks do not panic, polling yields, in order and once each, one item per leaf of the type cut off at depth D — depth_limited_items: exactly the leaves of depth <= D and the internal nodes at depth D — as the node with the transcoded target, or Err(depth) where the target refused the key at that depth; then None for ever; at most D+2 loop passes per call, no panic site); rooted_exact (iteration rooted at the node any key denotes = the leaves at or below it, by simulation with the subtree's iterator); full_depth_exact; exact_size_remaining; fused; targets_do_not_panic ((), index arrays of any capacity). Every run iterates every corpus type for every depth limit, every (sampled) node as root in several key representations, index/path capacities from 0 to sufficient, polling past the end.",
